@@ -260,6 +260,44 @@ theorem wire_shape (close : Bool) (r : Resp) :
       str "HTTP/1.1 " ++ toDec r.code ++ [32] ++ r.reason ++ headerBytes ++ crlf ++ crlf ++ r.body :=
   ⟨_, rfl⟩
 
+/-- **body_join**: for a request other than HEAD and a status that carries a body, the body handed to the connection —
+    and the bytes that follow the blank line on the wire — are the application's `write()` arguments followed by the
+    chunks of its iterable, concatenated in order, with nothing added, dropped or re-framed. -/
+theorem body_join (method tver status : Str) (hs : List (Str × Str)) (writes chunks : List Bytes) (close : Bool) (r : Resp)
+    (h : respond method tver { status := status, headers := hs, body := joinResponse (writes ++ chunks) } = .ok r)
+    (hm : isHead method = false) (hb : noBodyStatus r.code = false) :
+    r.body = writes.flatten ++ chunks.flatten ∧
+    ∃ headerBytes, wire close r =
+      str "HTTP/1.1 " ++ toDec r.code ++ [32] ++ r.reason ++ headerBytes ++ crlf ++ crlf ++
+        (writes.flatten ++ chunks.flatten) := by
+  obtain ⟨_, _, hbody⟩ := response_faithful method tver _ r h
+  have hbody' : r.body = writes.flatten ++ chunks.flatten := by
+    rw [hbody, hm, hb]
+    simp [joinResponse]
+  refine ⟨hbody', ?_⟩
+  obtain ⟨hbytes, e⟩ := wire_shape close r
+  exact ⟨hbytes, by rw [e, hbody']⟩
+
+/-- **body_dropped**: for HEAD requests and for 1xx / 204 / 304 statuses nothing follows the blank line -/
+theorem body_dropped (method tver : Str) (a : AppOut) (close : Bool) (r : Resp) (h : respond method tver a = .ok r)
+    (hd : isHead method = true ∨ noBodyStatus r.code = true) :
+    ∃ headerBytes, wire close r =
+      str "HTTP/1.1 " ++ toDec r.code ++ [32] ++ r.reason ++ headerBytes ++ crlf ++ crlf := by
+  obtain ⟨_, _, hbody⟩ := response_faithful method tver a r h
+  have hbody' : r.body = [] := by
+    rw [hbody]
+    rcases hd with hd | hd <;> simp [hd]
+  obtain ⟨hbytes, e⟩ := wire_shape close r
+  exact ⟨hbytes, by rw [e, hbody', List.append_nil]⟩
+
+example : (match respond (str "GET") (str "6.5")
+      (AppOut.mk (str "200 OK") [] (joinResponse ([[104], [105, 33]] ++ [[], [13, 10], [48]]))) with
+    | .ok r => isHead (str "GET") == false && noBodyStatus r.code == false && r.body == [104, 105, 33, 13, 10, 48]
+    | .error _ => false) = true := by decide
+example : (match respond (str "GET") (str "6.5") { status := str "204 No Content", headers := [], body := [104] } with
+    | .ok r => noBodyStatus r.code && r.body == []
+    | .error _ => false) = true := by decide
+
 /-- **group_values**: `HTTPHeaders.add` for every pair followed by `get_all()` (grouping by normalised name)
     keeps, for every name, exactly the values the application gave under the spellings of that name, in their
     order (invariant: the keys of the grouped dictionary stay pairwise distinct, `grouped_keys_nodup`). -/
